@@ -162,28 +162,6 @@ pub proof fn lemma_two_ops_merge_step(a0: AArena<2>, am: AArena<2>, a1: AArena<2
     assert(merge_step(a0, a1, p, l, r, g, gl));
 }
 
-// a leaf has no descendants
-pub proof fn lemma_desc_has_kid<N, const K: usize>(a: Arena<N, K>, n: usize, i: usize)
-    requires parents_ok(a), a.dom().contains(n), no_kids(a[n]), desc(a, n, i)
-    ensures false
-{
-    let f = choose|f: nat| is_desc(a, n, i, f);
-    lemma_is_desc_has_kid(a, n, i, f);
-}
-pub proof fn lemma_is_desc_has_kid<N, const K: usize>(a: Arena<N, K>, n: usize, i: usize, f: nat)
-    requires parents_ok(a), a.dom().contains(n), no_kids(a[n]), is_desc(a, n, i, f)
-    ensures false
-    decreases f
-{
-    let pp = a[i].parent.unwrap();
-    if pp == n {
-        let l = choose|l: int| 0 <= l < K && #[trigger] a[n].children[l] == Some(i);
-        assert(a[n].children[l].is_none());
-    } else {
-        lemma_is_desc_has_kid(a, n, pp, (f - 1) as nat);
-    }
-}
-
 // one step keeps the denotation and the shape invariant
 pub proof fn lemma_reduce_step(a_old: AArena<2>, a0: AArena<2>, am: AArena<2>, a1: AArena<2>, rt: usize, in_dim: usize, p: usize, l: usize, r: usize)
     requires wf_at(a0, Some(rt)), wf_at(a1, Some(rt)), rt != p, a0.dom().contains(p), a0[p].children[0] == Some(l), a0[p].children[1] == Some(r),
